@@ -14,10 +14,23 @@ pub struct Ev {
 
 static EVENTS: Mutex<Vec<Ev>> = Mutex::new(Vec::new());
 
+/// Optional observer called synchronously for every event (while a10 is still
+/// inside the code that emitted it).
+static OBSERVER: Mutex<Option<fn(&Ev)>> = Mutex::new(None);
+
+pub fn set_observer(f: Option<fn(&Ev)>) {
+    *OBSERVER.lock().unwrap_or_else(|e| e.into_inner()) = f;
+}
+
 fn sink(seq: u64, ev: &a10::verif::Event<'_>) {
     alloc::untracked(|| {
+        let record = Ev { seq, name: ev.name, f: ev.f, raw: ev.raw.to_vec() };
+        let observer = *OBSERVER.lock().unwrap_or_else(|e| e.into_inner());
+        if let Some(observer) = observer {
+            observer(&record);
+        }
         let mut events = EVENTS.lock().unwrap_or_else(|e| e.into_inner());
-        events.push(Ev { seq, name: ev.name, f: ev.f, raw: ev.raw.to_vec() });
+        events.push(record);
     });
 }
 
